@@ -191,7 +191,7 @@ func unmarshalJSONObject(d decoder, r Rule) (Size, error) {
 	unit := (*string)(nil)
 keys:
 	for i := 0; true; i++ {
-		if i > MaxObjectKeys {
+		if MaxObjectKeys != 0 && i > MaxObjectKeys {
 			return 0, fmt.Errorf("%w: %d > %d", ErrObjectTooBig, i, MaxObjectKeys)
 		}
 		if !d.More() {
@@ -212,9 +212,6 @@ keys:
 			if err != nil {
 				return 0, err
 			}
-			if !d.More() {
-				break keys
-			}
 		case ObjectKeyUnit:
 			if unit != nil {
 				return 0, ErrDuplicatedUnitKey
@@ -222,9 +219,6 @@ keys:
 			unit, err = decodeUnit(d)
 			if err != nil {
 				return 0, err
-			}
-			if !d.More() {
-				break keys
 			}
 		default:
 			if r&RuleDisallowUnknownKeys != 0 {
